@@ -117,6 +117,7 @@ type ArrayNode struct {
 type HashNode struct {
 	ExpressionNode
 	items map[Node]Node
+	keys  []Node // key expressions in source order (nil for nodes built without it)
 }
 
 // ConditionalNode represents ternary operator (condition ? true : false)
